@@ -68,6 +68,16 @@ def _sbcmp(f):
     return g
 
 
+def _py(a):
+    """plain Python number for NumPy scalars (so that comparisons with symbolic scalars reach the scalar's reflected
+    operator, which also knows about +-inf), symbolic scalars unchanged"""
+    if isinstance(a, np.generic):
+        return a.item()
+    if isinstance(a, SB):
+        return lift(a)
+    return a
+
+
 def _logical_not(a):
     if is_sym(a):
         return SB(z3.Not(_b(a)))
@@ -126,12 +136,12 @@ UF = {
     "sign": _sign,
     "maximum": _max2,
     "minimum": _min2,
-    "less": lambda a, b: lift(a) < b,
-    "greater": lambda a, b: lift(a) > b,
-    "less_equal": lambda a, b: lift(a) <= b,
-    "greater_equal": lambda a, b: lift(a) >= b,
-    "equal": lambda a, b: lift(a) == b,
-    "not_equal": lambda a, b: lift(a) != b,
+    "less": lambda a, b: _py(a) < _py(b),
+    "greater": lambda a, b: _py(a) > _py(b),
+    "less_equal": lambda a, b: _py(a) <= _py(b),
+    "greater_equal": lambda a, b: _py(a) >= _py(b),
+    "equal": lambda a, b: _py(a) == _py(b),
+    "not_equal": lambda a, b: _py(a) != _py(b),
     "isnan": _isnan,
     "isfinite": lambda a: SB(z3.Not(lift(a).nan)),
     "isinf": lambda a: SB(FALSE),
